@@ -101,6 +101,14 @@ func hbResponseReady(c *core.Ctx) {
 						roots = append(roots, p.Decl(f))
 					}
 				}
+				// a function literal that forwards to the validator(s): what it calls runs in the request goroutine
+				if lit, ok := astx.Unparen(call.Args[0]).(*ast.FuncLit); ok {
+					for _, inner := range astx.CallsDeep(lit.Body) {
+						if f := astx.CalleeFunc(info, inner); f != nil && p.Decl(f) != nil && p.PkgOf(p.Decl(f)) == p.Connect {
+							roots = append(roots, p.Decl(f))
+						}
+					}
+				}
 			}
 		}
 	}
